@@ -56,14 +56,15 @@ func newTokenSearch(term string) token {
 // tokenize parse and break a input into tokens ready to be
 // interpreted later by a parser to get the semantic.
 func tokenize(query string) ([]token, error) {
-	fields, err := splitFunc(query, unicode.IsSpace)
+	fields, err := splitFunc(query, unicode.IsSpace, false)
 	if err != nil {
 		return nil, err
 	}
 
 	var tokens []token
 	for _, field := range fields {
-		chunks, err := splitFunc(field, func(r rune) bool { return r == ':' })
+		// empty chunks are kept here: "status::open" has an empty chunk between its two colons
+		chunks, err := splitFunc(field, func(r rune) bool { return r == ':' }, true)
 		if err != nil {
 			return nil, err
 		}
@@ -111,8 +112,9 @@ func removeQuote(field string) string {
 }
 
 // split the input into chunks by splitting according to separatorFunc but respecting
-// quotes
-func splitFunc(input string, separatorFunc func(r rune) bool) ([]string, error) {
+// quotes. Empty chunks (nothing between two separators, or before the first or after
+// the last one) are dropped unless keepEmpty is set.
+func splitFunc(input string, separatorFunc func(r rune) bool, keepEmpty bool) ([]string, error) {
 	lastQuote := rune(0)
 	inQuote := false
 
@@ -140,7 +142,7 @@ func splitFunc(input string, separatorFunc func(r rune) bool) ([]string, error) 
 		if isChunk(r) {
 			chunk.WriteRune(r)
 		} else {
-			if chunk.Len() > 0 {
+			if keepEmpty || chunk.Len() > 0 {
 				result = append(result, chunk.String())
 				chunk.Reset()
 			}
@@ -151,7 +153,7 @@ func splitFunc(input string, separatorFunc func(r rune) bool) ([]string, error) 
 		return nil, fmt.Errorf("unmatched quote")
 	}
 
-	if chunk.Len() > 0 {
+	if keepEmpty || chunk.Len() > 0 {
 		result = append(result, chunk.String())
 	}
 
